@@ -103,9 +103,9 @@ pub fn o4_exposed(sc: &Scenario) -> bool {
 fn gen_scenario(rng: &mut Rng) -> Scenario {
     // (O4 is fixed in /repo: refusals, cancellations, partitions and listener drops everywhere)
     let guarded = false;
-    // a third of the listener programs are orderly (bind first, an accept for everybody) so that
+    // half of the listener programs are orderly (bind first, an accept for everybody) so that
     // queues of several pending requests stay frequent; the connectors and the script are unrestricted
-    let orderly = rng.chance(1, 3);
+    let orderly = rng.chance(1, 2);
     let mut cfg = SimCfg::gen(rng, &CfgProfile { latency_range: true, random_failures: false, small_capacities: false, max_tick_ms: 20, max_latency_ticks: 10 });
     cfg.fail_rate_pm = 0;
     let lat = cfg.max_latency_ticks();
@@ -1144,13 +1144,13 @@ impl Property for C12 {
         vec![
             "a one-way partition of the direction listener->connector is not generated (the handshake acknowledgement does not travel over the simulated network; the property text only speaks of 'a partitioned direction')".into(),
             "requests whose arrival step cannot be determined (sub-tick latency, same-host hand-over in a step where the listener binds or drops) are not judged for order or refusal timing".into(),
-            "no generator guard: the former known finding O4 (a failed or cancelled connect leaves a stream-table entry) is fixed in /repo (8fcc78f); a third of the listener programs are orderly (bind first, one accept per connector), connectors and fault scripts are unrestricted everywhere".into(),
+            "no generator guard: the former known finding O4 (a failed or cancelled connect leaves a stream-table entry) is fixed in /repo (8fcc78f); half of the listener programs are orderly (bind first, one accept per connector), connectors and fault scripts are unrestricted everywhere".into(),
             "an accepted stream whose connector gave up (or whose nonce never arrives) may end with ConnectionReset / EOF / nothing: the nonce read is recorded, not judged".into(),
         ]
     }
     fn budget(tier: Tier) -> u64 {
         match tier {
-            Tier::Quick => 1_000_000,
+            Tier::Quick => 1_500_000,
             Tier::Thorough => 12_000_000,
         }
     }
